@@ -6,6 +6,7 @@ From V.c07 Require Import C07Model.
 From V.c06 Require Import C06Model C06InitModel C06StructProofs C06CencProofs C06CbcsProofs C06SampleProofs C06InitProofs C06FragModel C06FragProofs.
 From V.c06 Require Import C06SencModel C06SencProofs C06SencAuxProofs C06TrexModel C06TrexProofs C06EntryModel C06EntryProofs.
 From V.c06 Require Import C06SencRepairProofs C06FileCbcsProofs C06TimingModel C06TimingProofs C06SinfModel C06SinfProofs.
+From V.c06 Require Import C06MultiModel C06MultiProofs.
 
 (* cenc: crypting twice with the same key, IV and sub-sample map restores the sample — for EVERY block function
    E, every map (empty = whole sample, partial last block, clear runs > 65535, even overlapping or wrapping
@@ -105,7 +106,7 @@ Print Assumptions C06_iv_sequence_cbcs.
    the mdat position, when the mdat follows the moof) moves by exactly the number of bytes the moof shrinks, so it
    designates the same mdat bytes; the surgery touches no sample field (the model has none to touch: trun sample
    tables, tfdt and tfhd are opaque boxes that are kept) *)
-Theorem C06_decrypt_preserves_offsets : forall f g,
+Theorem C06_decrypt_preserves_offsets_single : forall f g,
   decrypt_frag_struct f = Ok g ->
   f_moof_start g = f_moof_start f /\
   moof_size (f_children g) + (f_data_offset f - f_data_offset g) = moof_size (f_children f) /\
@@ -113,7 +114,83 @@ Theorem C06_decrypt_preserves_offsets : forall f g,
   (f_moof_start f < f_mdat_start f ->
    f_mdat_start g + (f_data_offset f - f_data_offset g) = f_mdat_start f \/ f_mdat_start f < f_data_offset f - f_data_offset g).
 Proof. exact decrypt_struct_general. Qed.
+Print Assumptions C06_decrypt_preserves_offsets_single.
+
+(* the same for ANY fragment with k trafs (multi-track: protected tracks, clear tracks and tracks the init segment does
+   not know side by side) x m truns per traf and pssh boxes in the moof, third-party content included (C06MultiModel.v:
+   DecryptFragment with int32 data offsets and a uint64 mdat position).  Whenever DecryptFragment succeeds there is ONE
+   number `removed` such that
+   - the moof has become exactly `removed` bytes shorter (sizes are Box.Size(): a box with a 16-byte header counts 16),
+   - the box tree is the clear tree: in every protected traf saiz / saio / senc (both spellings) are gone and every other
+     box is there in order, a traf of a clear track is untouched, the pssh boxes are gone, every other moof child is there
+     in order (x_struct = the tree without senc contents and sample bytes),
+   - EVERY data offset of EVERY trun of EVERY traf has become `o - removed` (int32 arithmetic; exact in range), so it
+     addresses the same mdat bytes, and the mdat position moves by the same `removed` (uint64; exact in range).
+   The pssh bytes are part of `removed`: C06_pssh_undercount_refuted shows that the variant which measures the shrink
+   without them moves the offsets by too little *)
+Theorem C06_decrypt_preserves_offsets :
+  forall (E D : list N -> list N -> list N) (di : list (N * option tinfo)) (key : list N) (f g : xfrag),
+  decrypt_multi E D di key f = Ok g ->
+  exists removed,
+    xmoof_size (xf_children g) + removed = xmoof_size (xf_children f) /\
+    map x_struct (xf_children g) = map (shift_traf removed) (map x_struct (clear_children di (xf_children f))) /\
+    xf_moof_start g = xf_moof_start f /\
+    (forall o, xmoof_size (xf_children f) < 18446744073709551616 ->
+               (-2147483648 <= o - Z.of_N removed)%Z -> (o < 2147483648)%Z ->
+               sub_i32 o removed = (o - Z.of_N removed)%Z) /\
+    (xf_moof_start f < xf_mdat_start f -> removed <= xf_mdat_start f -> xf_mdat_start f < 18446744073709551616 ->
+     xf_mdat_start g + removed = xf_mdat_start f) /\
+    (xf_mdat_start f <= xf_moof_start f -> xf_mdat_start g = xf_mdat_start f).
+Proof. exact decrypt_multi_offsets. Qed.
 Print Assumptions C06_decrypt_preserves_offsets.
+
+Theorem C06_pssh_undercount_refuted :
+  let E := fun (_ b : list N) => b in
+  let di := [(1, Some (mkTI Cenc [] 0 0))] in
+  let f := mkXF 0 [XOther 16 1; XPssh 32 2;
+                   XTraf (mkX 1 [mkT TOther 16 3; mkT TTrun 24 4; mkT TSenc 16 5] [128%Z] [] [] [])] 120 in
+  let clear := [XOther 16 1; XTraf (mkX 1 [mkT TOther 16 3; mkT TTrun 24 4] [80%Z] [] [] [])] in
+  xmoof_size (xf_children f) = 120 /\ xmoof_size clear = 72 /\
+  decrypt_multi E E di [] f = Ok (mkXF 0 clear 72) /\
+  decrypt_multi_undercount E E di [] f
+  = Ok (mkXF 0 [XOther 16 1; XTraf (mkX 1 [mkT TOther 16 3; mkT TTrun 24 4] [112%Z] [] [] [])] 104).
+Proof. exact pssh_undercount_refuted. Qed.
+Print Assumptions C06_pssh_undercount_refuted.
+
+(* multi-track / multi-trun round trip, sample bytes included.  cs = the PROTECTED box tree (k trafs with their track
+   ids, any number of truns each, saiz / saio / senc at any position of a protected traf, pssh boxes at any position of
+   the moof, any other boxes) holding the CLEAR sample bytes of every traf; enc_children runs the per-sample loop of
+   EncryptFragment over every protected traf (its own IV, its own protection function, cenc or cbcs per track).  Laid
+   out at any position with every trun addressing its own position of the mdat payload (any interleaving), the
+   fragment decrypts to the layout of the CLEAR tree with the same payload positions: every box that is not
+   protection signalling in place, every trun of every traf addressing the same bytes, the mdat right behind the
+   shorter moof, every sample byte of every traf restored.  Hypotheses: D inverts E on blocks (cbcs), the senc is
+   there, 16-byte IVs, cbcs maps fit their samples and tenc carries the IV; int32 / uint64 ranges *)
+Theorem C06_fragment_roundtrip_multi :
+  forall (E D : list N -> list N -> list N) (protfunc : N -> list N -> res (list ssp)) (iv_of : N -> list N)
+         (di : list (N * option tinfo)) (key : list N),
+  (forall k b, length (E k b) = 16%nat) ->
+  (forall k b, length (D k b) = 16%nat) ->
+  (forall k b, length b = 16%nat -> D k (E k b) = b) ->
+  key_ok key = true ->
+  forall cs cs_e start mdat_hdr poss,
+  trafs_ok protfunc iv_of di cs ->
+  enc_children E D protfunc iv_of di key cs = Ok cs_e ->
+  poss_ok (xmoof_size cs + mdat_hdr) poss ->
+  start + xmoof_size cs < 18446744073709551616 ->
+  decrypt_multi E D di key (xlayout start cs_e mdat_hdr poss)
+  = Ok (xlayout start (clear_children di cs) mdat_hdr poss).
+Proof. exact fragment_roundtrip_multi. Qed.
+Print Assumptions C06_fragment_roundtrip_multi.
+
+(* the clear tree named by the two theorems holds no pssh box and no protection box in a protected traf *)
+Theorem C06_clear_tree_clean : forall di cs c,
+  In c (clear_children di cs) ->
+  x_is_pssh c = false /\
+  (forall t, c = XTraf t -> find_track di (x_track t) <> None ->
+             forallb (fun b => negb (is_prot_kind_x (tk b))) (x_children t) = true).
+Proof. exact clear_children_clean. Qed.
+Print Assumptions C06_clear_tree_clean.
 
 (* init segment: DecryptInit (InitProtect init) = init for every single-track init whose moov has no pssh: the
    sample entry type is restored from frma (avc1/avc3/hvc1/hev1, any audio type), the sinf InitProtect added and the
@@ -663,3 +740,42 @@ Example ex_frag_roundtrip_mixed :
   | _ => False
   end.
 Proof. vm_compute. repeat split; reflexivity. Qed.
+
+(* the hypotheses of C06_fragment_roundtrip_multi are satisfiable: three trafs (AVC cenc with two truns, audio cbcs,
+   a clear track whose senc-like box is left alone), two pssh boxes, unknown boxes with 16-byte headers in traf and
+   moof, a 16-byte mdat header, the truns' data interleaved in the payload *)
+Example ex_multi :
+  let di := [(1, Some (mkTI Cenc [] 0 0)); (2, Some (mkTI Cbcs (repeat 5 16) 0 0)); (3, None)] in
+  let protfunc := fun tr : N => if tr =? 1 then protect_ranges avc_is_video (fun _ => Err) Cenc else audio_protect_ranges in
+  let iv_of := fun tr : N => if tr =? 1 then repeat 255 16 else repeat 5 16 in
+  let cs := [XOther 16 1; XPssh 32 2;
+             XTraf (mkX 1 [mkT TOther 16 3; mkT TOther 20 4; mkT TSaio 20 5; mkT TTrun 40 6; mkT TSenc 80 7;
+                           mkT TOther (xbox_size true 21) 8; mkT TTrun 32 9; mkT TSaiz 19 10] [] [] []
+                         [C07Spec.frames [101 :: repeat 7 139; [6; 1]]; C07Spec.frames [65 :: repeat 9 120]]);
+             XOther (xbox_size true 33) 11;
+             XTraf (mkX 2 [mkT TOther 16 12; mkT TSenc 16 13; mkT TTrun 28 14; mkT TSaiz 17 15; mkT TSaio 20 16] [] [] []
+                         [repeat 7 40; repeat 8 3]);
+             XTraf (mkX 3 [mkT TOther 16 17; mkT TTrun 24 18; mkT TSenc 16 19] [] [] [] [repeat 1 9]);
+             XPssh 40 20] in
+  let poss := [[9; 0]; [200]; [150]] in
+  trafs_ok protfunc iv_of di cs /\ poss_ok (xmoof_size cs + 16) poss /\
+  match enc_children ex_E ex_E protfunc iv_of di (repeat 3 16) cs with
+  | Ok cs_e =>
+      decrypt_multi ex_E ex_E di (repeat 3 16) (xlayout 1000 cs_e 16 poss)
+      = Ok (xlayout 1000 (clear_children di cs) 16 poss) /\
+      map x_struct cs_e = map x_struct cs /\ cs_e <> cs /\
+      xmoof_size (clear_children di cs) + 244 = xmoof_size cs
+  | _ => False
+  end.
+Proof.
+  split; [|split].
+  - intros t Hin. cbn [In] in Hin.
+    repeat (destruct Hin as [Hin|Hin]; [try discriminate; injection Hin as <-|]); try contradiction.
+    + unfold traf_ok. cbn. split; [reflexivity|]. split; [reflexivity|]. discriminate.
+    + unfold traf_ok. cbn. split; [reflexivity|]. split; [reflexivity|]. intros _. split; [reflexivity|].
+      intros s ssps Hs Hp. injection Hp as <-. unfold fits. cbn [map sumN].
+      destruct Hs as [<-|[<-|[]]]; cbn; lia.
+    + exact I.
+  - repeat constructor.
+  - vm_compute. repeat split; try reflexivity. discriminate.
+Qed.
